@@ -91,9 +91,22 @@ def canonical_problem(x):
     return None
 
 
+def equivalent(x, y):
+    """The harness's OWN statement of "is the fill value" (independent of the library's _utils.equivalent, which is code under test):
+    equal as numbers, with NaN equal to NaN per component and -0.0 different from +0.0 (the library keeps the sign of zero)."""
+    x, y = np.asarray(x), np.asarray(y)
+    dt = np.result_type(x.dtype, y.dtype)
+    if dt.kind == "c":
+        return equivalent(x.real, y.real) & equivalent(x.imag, y.imag)
+    if dt.kind != "f":
+        return x == y
+    x, y = np.broadcast_arrays(x.astype(dt), y.astype(dt))
+    with np.errstate(all="ignore"):
+        return ((x == y) & (np.signbit(x) == np.signbit(y))) | (np.isnan(x) & np.isnan(y))
+
+
 def nofill_problem(x):
     import sparse
-    from sparse.numba_backend._utils import equivalent
 
     if isinstance(x, sparse.DOK):
         vals = np.array(list(x.data.values())) if x.data else np.array([])
